@@ -32,6 +32,9 @@ def _f(id_, component, oracle, shape, what, scenario, params, seed=0, **extra):
         "what": what,
         "witness": {"family": scenario.split(".")[0], "case": {"scenario": scenario, "seed": seed, "params": params}},
     }
+    mutate = extra.pop("mutate", None)
+    if mutate:
+        e["witness"]["case"]["mutate"] = mutate
     commit = extra.pop("fixed_commit", None)
     e.update(extra)
     if commit:
@@ -177,6 +180,12 @@ FINDINGS = [
         "C07-perishable-start-event-from-epoch", "PerishableInventory", "past-emission", "_SpoilageCheck",
         "PerishableInventory.start_event() stamps the first spoilage check from the Epoch instead of now: in the past when started late or with start_time > 0",
         "industrial.late_start_cycles", {"arrivals_ns": [1000000000, 1000000000]}, fix_proposed="C07-industrial-timers-relative-to-now.diff",
+    ),
+    _f(
+        "C07-connection-pool-warmup-idle-timers-held", "ConnectionPool", "past-emission", "_pool_idle_timeout",
+        "ConnectionPool._handle_warmup returns the idle-timeout events of all warm connections after the last one is set up: the earlier ones are in the past when set-up time exceeds idle_timeout",
+        "clients.pool_acquire_timeouts", {'arrivals_ns': [223456796, 223456797], 'lats': [0.021, 0.003, 1e-09, 1e-09], 'counts': [1, 9, 10], 'cap': 3, 'hold': 0.0123456789, 'end': 10.0, 'x': {'v': 311}}, seed=6196, fix_proposed="C07-connection-pool-warmup-idle-timers.diff",
+        mutate={'plan': {'1': {'cls': 'ConnectionPool', 'param': 'min_connections', 'value': 3, 'choice': '3'}}},
     ),
 ]
 
